@@ -49,7 +49,11 @@ man = {
                                    '(purity.py), structural rules (rules.py), abstract evaluator to exact normal forms (symval.py, alg.py), '
                                    'oracle tables and exact series reversion (tables.py)'}],
     'checks': checks,
-    'notes': 'Static analysis only: no GeodePy code is imported or executed by any check. See DESIGN.md.',
+    'notes': 'Static analysis only: no GeodePy module is imported and no GeodePy function is called by any check. Everything is decided on the syntax tree and on forms '
+             'produced by the checker\'s own abstract evaluator (exact rational / exponential-polynomial arithmetic). Three witness mechanisms evaluate pieces of the SOURCE with the '
+             'checker\'s own interpreter on constants: numeric evaluation of normal forms at sample points (witnesses for differences, never for equality), R-TRUNC (an int() '
+             'argument folded a second time in IEEE doubles) and R-DOMAIN sqrt-at-the-boundary (a straight-line function body evaluated in IEEE doubles on eight singular matrices). '
+             'See DESIGN.md sections 10-11.',
     'not_applicable': na,
 }
 json.dump(man, open(os.path.join(HERE, 'MANIFEST.json'), 'w'), indent=1)
